@@ -3,7 +3,7 @@
 
    hist <restrictive 0|1> <max_replies> <timeout ms | -1> <event>*
      C<fds>                                              connect (fds 0|1)
-     S.<c>.<c|r|e|s>.<noreply>.<noauto>.<serial>.<rserial>.<u|n><k>.<nfds>.<token>
+     S.<c>.<c|r|e|s|v|u|w (unknown types 5, 9, 255)>.<noreply>.<noauto>.<serial>.<rserial>.<u|n><k>.<nfds>.<token>
      D.<c>        disconnect      T.<d>   d ms pass
      R.<c>.<serial>.<name>.<flags>   RequestName (bit0 allow_replacement, bit1 replace_existing, bit2 do_not_queue)
      L.<c>.<serial>.<name>           ReleaseName
@@ -32,7 +32,8 @@ let parse_event (tok : string) : event =
   match String.split_on_char '.' tok with
   | [c] when String.length c = 2 && c.[0] = 'C' -> EConnect (c.[1] = '1')
   | ["S"; c; ty; nr; na; ser; rser; d; nfds; token] ->
-      let ty = (match ty with "c" -> TCall | "r" -> TReturn | "e" -> TError | "s" -> TSignal | _ -> failwith "type") in
+      let ty = (match ty with "c" -> TCall | "r" -> TReturn | "e" -> TError | "s" -> TSignal
+                | "v" -> TOther (n_of_int 5) | "u" -> TOther (n_of_int 9) | "w" -> TOther (n_of_int 255) | _ -> failwith "type") in
       let k = ni (String.sub d 1 (String.length d - 1)) in
       let d = (match d.[0] with 'u' -> DUnique k | 'n' -> DName k | _ -> failwith "dest") in
       ESend (ni c, { m_type = ty; m_noreply = b nr; m_noauto = b na; m_serial = ni ser; m_rserial = ni rser;
